@@ -7,7 +7,8 @@ from props.base import prog_case, run_req, cmp_run
 RULE = ("(a) exhaustive: every string of length <= 4 (quick) / 5 (thorough) over {a, b, ',', ক, ' '} with every separator of "
         "length 1..2 (quick) / 1..3 (thorough) over the same alphabet plus the empty separator: split printed element by element, "
         "join(split(s)) == s; (b) lists of strings joined then split with a single-character separator that no element "
-        "contains; (c) _টাইপ on a value of each of the seven types; (d) wrong argument counts and types. "
+        "contains; (c) _টাইপ on a value of each of the seven types; (d) wrong argument counts and types: ten hand-written calls plus every argument tuple of length 0..3 over one value of "
+        "each kind (two strings, number, list of strings, boolean, record) for the three built-ins. "
         "Python's str.split / str.join are the oracle (through the structured semantics); compared with the Lean model too. "
         "Non-trivial: the separator occurs in the string.")
 ASSUMPTIONS = ["property clause 'join then split returns the list' is false for multi-character separators "
@@ -101,4 +102,13 @@ def cases(rng, tier, stats):
            G.call("_টাইপ"), G.call("_টাইপ", G.num(1), G.num(2))]
     for b in bad:
         out.append(prog_case("bad-arguments", [("print", G.s("আগে")), ("print", b), ("print", G.s("পরে"))]))
+    # every argument tuple of length 0..3 over one value of each kind: exactly the documented shapes are accepted
+    pool = [G.s("a,b"), G.s(","), G.num(2), G.lst(G.s("a"), G.s("b")), G.b(True), G.rec((G.s("k"), G.num(1)))]
+    nt = 0
+    for fn in ("_স্ট্রিং-স্প্লিট", "_স্ট্রিং-জয়েন", "_টাইপ"):
+        for ln in range(0, 4):
+            for args in itertools.product(pool, repeat=ln):
+                out.append(prog_case("argument-tuples", [("print", G.s("আগে")), ("print", G.call(fn, *args)), ("print", G.s("পরে"))], mode="oneline"))
+                nt += 1
+    stats["argument_tuples"] = nt
     return out
